@@ -26,6 +26,20 @@ def fn_of(ctx, module_name: str, qual: str, precise: bool = False) -> Fn:
     return Fn(ctx.repo, m, qual, ctx.effects if precise else None)
 
 
+def schedule_calls(fn: Fn, coro: str) -> list:
+    """[(cfg node, call)] of `self._schedule(<coroutine of self.<coro>()> ...)` in fn; a local that holds the coroutine object
+    (`c = self._connect(); self._schedule(c)`) is followed to its definition."""
+    out = []
+    for n, c in fn.calls("self._schedule"):
+        arg = c.args[0] if c.args else next((k.value for k in c.keywords if k.arg == "coro"), None)
+        if arg is None:
+            continue
+        e = fn.expand(arg, n)
+        if any(isinstance(x, ast.Call) and dotted(x.func) == f"self.{coro}" for x in ast.walk(e)) or any(isinstance(x, ast.Call) and dotted(x.func) == f"self.{coro}" for x in ast.walk(c)):
+            out.append((n, c))
+    return out
+
+
 def is_self_attr(e: ast.AST, attr: str) -> bool:
     return isinstance(e, ast.Attribute) and e.attr == attr and isinstance(e.value, ast.Name) and e.value.id == "self"
 
